@@ -10,9 +10,9 @@ package runnersim
 import (
 	"context"
 	"encoding/hex"
+	"fmt"
 	"os"
 	"runtime/debug"
-	"fmt"
 	"sort"
 	"sync"
 	"time"
@@ -160,12 +160,12 @@ type world struct {
 	subs     []subRec
 	plan     []sim.Step
 	// oracle bookkeeping
-	signedOnce map[string]bool // op|domain|objRoot -> signed before
-	certified  map[string][]byte // op|role|height -> value certified (quorum of valid commits delivered)
-	commitSeen map[string]map[spectypes.OperatorID]bool
-	t0         time.Time
+	signedOnce    map[string]bool   // op|domain|objRoot -> signed before
+	certified     map[string][]byte // op|role|height -> value certified (quorum of valid commits delivered)
+	commitSeen    map[string]map[spectypes.OperatorID]bool
+	t0            time.Time
 	dutiesStarted map[int]int
-	mkTimer    func(op *operator, role spectypes.BeaconRole) roundtimer.Timer // nil: recording timers
+	mkTimer       func(op *operator, role spectypes.BeaconRole) roundtimer.Timer // nil: recording timers
 }
 
 func roleName(r spectypes.BeaconRole) string { return r.String() }
